@@ -55,6 +55,12 @@ CHECKS = {
         text="TLC checks Authentication (client completes only with a peer holding both certified keys and proving it in this session; server with verified client auth only with the key holder over this transcript) and Agreement on the symbolic model for every single-deviation scenario (7 certificate kinds per slot, wrong key per slot, SKE omitted/replayed/mis-signed/over another encryption certificate, client certificate kinds, wrong client key, replayed CertificateVerify, 13 field rewrites, a changed byte at 8 (64 thorough) positions of each plaintext handshake message, verification off); each scenario runs against the real client and server and the set of endpoints that complete must be the model's.",
         note="Symbolic cryptography (signatures unforgeable, encryption opaque). GMSSL suites only; the TLS 1.x path relies on C06 interop. One deviation per scenario.",
         ref="DESIGN.md section 5 C08"),
+    "C09": dict(
+        level="fault_enumeration",
+        technique="TLA+ table spec Issue (effective algorithm = requested or signer default; signed input raw for SM2 algorithms, digest otherwise; verifies only under the signing key and unchanged bytes) checked by TLC; every cell created with the real package, parsed back, verified, and re-verified under another key and after single-byte changes of TBS and signature value",
+        text="All 66 offered cells of {certificate, request, CreateCRL, CreateRevocationList} x {SM2, RSA-2048, ECDSA P-256, P-384} x {algorithm unset, each family member} plus 12 certificate template classes (20-byte serial, multi-valued and extra name attributes, every KeyUsage bit, EKUs incl. unknown OIDs, path length 0 and 2, SANs, critical name constraints, policies / AIA / CRL DP / SKI, extra extension, validity edges): created, parsed back and compared field by field, verified under the issuer (must pass), under another key of the family (must fail) and after changing bytes of the signed part and of the signature value (60 positions per object, every byte in thorough).",
+        note="Signing is symbolic in the specification; the concrete oracle is the library's own verifier plus the Go standard library for RSA/ECDSA keys. Mismatching algorithm/key combinations are outside the statement.",
+        ref="DESIGN.md section 5 C09"),
     "C10": dict(
         level="model_checking",
         technique="TLA+ declarative reference path validator (PKIX.tla: ValidChains as all simple paths satisfying signature, name chaining, validity, CA / certSign, path length, permitted domains, host name, EKU, critical extension) evaluated by TLC over PKI templates x knobs; each case materialised with real SM2 certificates and run through (*Certificate).Verify under several pool orders",
